@@ -31,6 +31,10 @@ def run(rep):
     rep.guard(c16.g2, rep, dev)     # the paced and the stress collector run at the same point of an allocation (before the new object is registered)
     rep.guard(c01.r1, rep, dev)     # collections happen at different points in the build configurations: an untraced edge shows up as different behaviour between them
     rep.guard(c02.p10, rep, dev)    # an element read past the current length panics in one configuration and reads stale memory in the other
+    import c04
+    rep.guard(c04.b5, rep, dev)     # the stack bounds test exists only in checked builds: a capacity below frames x locals is a panic there and silent memory corruption in the optimised build
+    rep.guard(c02.p11, rep, dev)    # ... the same for any other fixed-capacity Stack
+    rep.guard(c01.r2, rep, dev)     # a handle kept outside the heap without a root: what it points to is gone after the next collection, which the stress build runs at every allocation
 
 
 def features_of(snip):
